@@ -257,8 +257,9 @@ def generate(seed, index, tier):
     if index % 4 == 3:
         return _gen_handover(rng, seed, index, tier)
     simple = rng.random() < 0.6
-    h = history.gen_history(rng, simple=simple,
-                            two_apps=rng.random() < 0.5,
+    two = rng.random() < 0.5
+    h = history.gen_history(rng, simple=simple, two_apps=two,
+                            shared_labels=two and index % 3 == 0,
                             nsteps=rng.choice([1, 2, 2, 3]))
     if not simple:
         pass
